@@ -486,6 +486,21 @@ func wordTitles(words []string) []string {
 	return out
 }
 
+// snapshots of the shipped lists, taken before the first operation: whatever the library is
+// asked to do with them, the exported slices must still hold exactly this (C16)
+var agileWordsSnapshot = append([]string(nil), spg.AgileWords...)
+var agileSyllablesSnapshot = append([]string(nil), spg.AgileSyllables...)
+
+func builtinsIntact() string {
+	if !sameStrings(spg.AgileWords, agileWordsSnapshot) {
+		return " BUILTIN-CHANGED=AgileWords"
+	}
+	if !sameStrings(spg.AgileSyllables, agileSyllablesSnapshot) {
+		return " BUILTIN-CHANGED=AgileSyllables"
+	}
+	return ""
+}
+
 func wordsArg(a opArgs) []string {
 	switch a["words"] {
 	case "@agilewords":
@@ -861,6 +876,9 @@ func (e *executor) exec1(line, lean string) string {
 		first := ""
 		for i := 0; i < reps; i++ {
 			src := callerBuffer(words)
+			if strings.HasPrefix(a["words"], "@") {
+				src = words // the exported list itself, as a caller would pass it
+			}
 			wl, err := spg.NewWordList(src)
 			_, dup, unk := classifyOutput(capt.take())
 			var l string
@@ -892,7 +910,9 @@ func (e *executor) exec1(line, lean string) string {
 				}
 				l = fmt.Sprintf("ok kept=%s size=%d allcap=%d dup=%d", shown, wl.Size(), allcap, dup)
 				l += keptOracle(words, kept, int(wl.Size()), allcap == 1)
-				if !sameStrings(src, words) {
+				if strings.HasPrefix(a["words"], "@") {
+					l += builtinsIntact()
+				} else if !sameStrings(src, words) {
 					l += " MUTATED=caller-slice"
 				}
 			}
@@ -1124,7 +1144,12 @@ func (e *executor) exec1(line, lean string) string {
 				}
 			}
 		}
-		return fmt.Sprintf("ok idx=%s kind=%s%s%s", encHex(ix), kind, rt, unknownField(unk))
+		res := fmt.Sprintf("ok idx=%s kind=%s%s%s", encHex(ix), kind, rt, unknownField(unk))
+		// the returned index belongs to the caller, who may reuse it as a buffer
+		for i := range ix {
+			ix[i] = 0xA5
+		}
+		return res
 
 	case "tokenize":
 		pw := string(decHex(a["pw"]))
@@ -1132,6 +1157,22 @@ func (e *executor) exec1(line, lean string) string {
 		ent := float32(7.25)
 		var q spg.Password
 		var err error
+		if len(idx) == 0 {
+			// "no index" comes in three shapes — nil, an empty literal, the empty tail of a buffer —
+			// and all three are the same index
+			for vi, v := range []spg.Indices{spg.Indices{}, make(spg.Indices, 0, 8), spg.Indices{1, 2, 3}[3:]} {
+				var e2 error
+				ro2 := withReader(&scripted{}, func() { _, e2 = spg.Tokenize(pw, v, ent) })
+				capt.take()
+				if ro2.panicked {
+					branch("tokenize:panic")
+					return "panic other:" + encHex([]byte(fmt.Sprintf("empty non-nil index (shape %d): %s", vi, ro2.panicMsg)))
+				}
+				if e2 == nil {
+					return "EMPTY-INDEX-ACCEPTED"
+				}
+			}
+		}
 		ro := withReader(&scripted{}, func() { q, err = spg.Tokenize(pw, idx, ent) })
 		_, _, unk := classifyOutput(capt.take())
 		if ro.panicked {
